@@ -436,3 +436,39 @@ def pull_scalars(v, is_scalar_atom, fns=("mean", "sum")):
     if isinstance(v, Form):
         return v.subst(fn)
     return v
+
+
+# ----------------------------------------------------------------------------- late binding of the global grid
+def check_late_binding(ctx, rule, roots, eff=None):
+    """No function reachable from `roots` may freeze a gv value: default arguments reading gv and memoised
+    functions (functools.lru_cache / cache) that read gv are reported (the grid in force at call time must be used)."""
+    from .effects import Effects
+    eff = eff or Effects(ctx.pkg)
+    seen = set()
+    for q in roots:
+        seen |= eff.reachable(q)
+    bad = 0
+    for q in sorted(seen):
+        s = eff.sum[q]
+        for d, txt in s.defaults_gv:
+            bad += 1
+            ctx.violation(rule, s.fi, s.fi.node, f"default argument `{txt}` of {q}", "a default argument reads gv when the function is defined: the grid in force at call time is ignored")
+        if s.memoised is not None:
+            reads = [(r, n) for r in eff.reachable(q) for n in eff.sum[r].reads_gv]
+            if reads:
+                bad += 1
+                r, node = reads[0]
+                ctx.violation(rule, s.fi, s.fi.node, f"{q} is cached ({src_of(s.memoised)}) but reads {src_of(node)}",
+                              "a memoised helper captures the gv value of its first call with given arguments: after gv(...) is reconfigured the stale result is reused, "
+                              "so the device no longer works on the sampling grid currently configured")
+        for node, name in s.global_writes:
+            if q.startswith("utils._Timer"):
+                continue
+            reads = [n for r in eff.reachable(q) for n in eff.sum[r].reads_gv]
+            key_src = src_of(node.targets[0].slice) if isinstance(node, ast.Assign) and isinstance(node.targets[0], ast.Subscript) else ""
+            if reads and "gv" not in key_src:
+                bad += 1
+                ctx.violation(rule, s.fi, node, f"{q} stores into module-level `{name}`", "module-level cache filled by a function that reads gv, keyed without it: results depend on call history across gv(...) changes")
+    if not bad:
+        ctx.holds(rule, None, None, f"{len(seen)} functions reachable from {', '.join(roots)}: gv read at call time", "no default-argument, memoised or module-level capture of gv")
+    return eff
